@@ -224,6 +224,120 @@ def fftRoute2 (e : R → K) (nrm : R → K) (shp out : Nat × Nat) (off : Int ×
   let Y := tab2 out.1 out.2 (fun p q => nrm (Num.ofInt 1 / Num.ofInt (out.1 : Int)) * dftL e out.1 (fun u => rd2 rows u q) p)
   tab2 out.1 out.2 (fun k l => fftshiftv out.1 (fun k' => fftshiftv out.2 (rd2 Y k') l) k)
 
+
+/-! ## the same routes with the signs, stage order and flags of the source as PARAMETERS
+
+The translator regenerates these parameters from the current source (`Generated.C01.cztSignsGen`, `cztStagesGen`,
+`focusFlagsGen`, `unfocusFlagsGen`, `mdftFwdSign`, …); the property theorems are stated over the parameterised routes
+applied to the generated values, and the driver runs the parameterised routes at the reference values below. -/
+
+/-- kernel with an explicit sign: `exp(s·2πi t) = e(−s·t)` when `e t = exp(−2πi t)`; `s = −1` is the forward kernel -/
+def kernS (s : Int) (e : R → K) (t : R) : K := e (Num.ofInt (-s) * t)
+
+/-- signs found in `_prepare_czt_basis`: `m -= shift` ↦ `shiftOut = −1`, `n -= shift` ↦ `shiftIn = −1`;
+`a = exp(sA·iπ·α·m²)`, `b = exp(sB·iπ·α·n²)`, `h = exp(sH·i·α·π j²)` -/
+structure CztSigns where
+  shiftOut : Int
+  shiftIn : Int
+  chirpA : Int
+  chirpB : Int
+  chirpH : Int
+deriving DecidableEq, Repr
+
+def cztSignsRef : CztSigns := { shiftOut := -1, shiftIn := -1, chirpA := -1, chirpB := -1, chirpH := 1 }
+
+/-- `exp(sg·iπ α x²) = e(−sg·α x²/2)` -/
+def chirpS (sg : Int) (e : R → K) (α x : R) : K := kernS sg e ((α * (x * x)) / Num.ofInt 2)
+
+def cztAS (sg : CztSigns) (e : R → K) (M : Nat) (α s : R) (k : Nat) : K :=
+  chirpS sg.chirpA e α (xc M k + Num.ofInt sg.shiftOut * s)
+
+def cztBS (sg : CztSigns) (e : R → K) (nrm : R → K) (n : Nat) (α s : R) (j : Nat) : K :=
+  chirpS sg.chirpB e α (xc n j + Num.ofInt sg.shiftIn * s) * nrm α
+
+/-- the kernel vector with the sign of its exponent as a parameter (same order of writes as `cztH`) -/
+def cztHS (sg : CztSigns) (e : R → K) (gl : CztGlue) (α : R) (t : Nat) : K :=
+  let ti : Int := t
+  let hv := fun (j : Int) => chirpS sg.chirpH e α (Num.ofInt j)
+  if gl.zLo ≤ ti ∧ ti < gl.zHi then Num.ofInt 0
+  else if gl.h2Lo ≤ ti ∧ ti < gl.h2Hi then hv (gl.j2Lo + (ti - gl.h2Lo))
+  else if gl.h1Lo ≤ ti ∧ ti < gl.h1Hi then hv (gl.j1Lo + (ti - gl.h1Lo))
+  else hv 0
+
+/-- the statements of `czt2` after the components are unpacked, in source order -/
+inductive CztStage where
+  | mulB    -- `gb = ary * bcol; gb *= brow`
+  | fft     -- `GBhat = fft.fft2(gb, (K, L))`
+  | mulH    -- `GBhat *= Hcol; GBhat *= Hrow`
+  | ifft    -- `gxformed = fft.ifft2(GBhat)`
+  | crop    -- `gxformed = gxformed[:M, :N]`
+  | mulA    -- `gxformed *= acol; gxformed *= arow`
+deriving DecidableEq, Repr
+
+def cztStagesRef : List CztStage := [.mulB, .fft, .mulH, .ifft, .crop, .mulA]
+
+/-- `czt2` as an interpreter over the stage list -/
+def czt2G (sg : CztSigns) (stages : List CztStage) (e : R → K) (nrm : R → K) (w0 w1 : AxisWiring) (gl0 gl1 : CztGlue)
+    (shp samples KL : Nat × Nat) (α0 α1 : R) (shift : R × R) (f : Array (Array K)) : Array (Array K) :=
+  let m := sel w0.lenIn shp
+  let M := sel w0.lenOut samples
+  let sy := sel w0.shift shift
+  let n := sel w1.lenIn shp
+  let N := sel w1.lenOut samples
+  let sx := sel w1.shift shift
+  let step := fun (x : Array (Array K)) (st : CztStage) =>
+    match st with
+    | .mulB => tab2 shp.1 shp.2 (fun p q => (rd2 x p q * cztBS sg e nrm n α1 sx q) * cztBS sg e nrm m α0 sy p)
+    | .fft => dft2KL e KL.1 KL.2 x
+    | .mulH => tab2 KL.1 KL.2 (fun p q => (rd2 x p q * dftL e KL.2 (cztHS sg e gl1 α1) q) * dftL e KL.1 (cztHS sg e gl0 α0) p)
+    | .ifft => idft2KL e KL.1 KL.2 x
+    | .crop => tab2 samples.1 samples.2 (rd2 x)
+    | .mulA => tab2 samples.1 samples.2 (fun k l => (rd2 x k l * cztAS sg e N α1 sx l) * cztAS sg e M α0 sy k)
+  stages.foldl step f
+
+def iczt2G (cj : K → K) (sg : CztSigns) (stages : List CztStage) (e : R → K) (nrm : R → K) (w0 w1 : AxisWiring)
+    (gl0 gl1 : CztGlue) (shp samples KL : Nat × Nat) (α0 α1 : R) (shift : R × R) (f : Array (Array K)) : Array (Array K) :=
+  mapArr2 cj (czt2G sg stages e nrm w0 w1 gl0 gl1 shp samples KL α0 α1 shift (mapArr2 cj f))
+
+/-- `dft2` / `idft2` with the kernel sign of the forward branch and the `fwd` flag of the entry point as parameters -/
+def mdft2G (fwdSign : Int) (isFwd : Bool) (e : R → K) (nrm : R → K) (w0 w1 : AxisWiring) (shp samples : Nat × Nat)
+    (sc0 sc1 a0 a1 : R) (shift : R × R) (f : Nat → Nat → K) (k l : Nat) : K :=
+  mdft2 (kernS (if isFwd then fwdSign else -fwdSign) e) nrm w0 w1 shp samples sc0 sc1 a0 a1 shift f k l
+
+/-- what the translator reads off `propagation.focus` / `unfocus` -/
+structure RouteFlags where
+  innerIsIfftshift : Bool
+  outerIsFftshift : Bool
+  ortho : Bool
+  inverse : Bool      -- `ifft2` rather than `fft2`
+deriving DecidableEq, Repr
+
+def focusFlagsRef : RouteFlags := { innerIsIfftshift := true, outerIsFftshift := true, ortho := true, inverse := false }
+def unfocusFlagsRef : RouteFlags := { innerIsIfftshift := true, outerIsFftshift := true, ortho := true, inverse := true }
+
+def shiftG (isFftshift : Bool) (N' : Nat) (x : Nat → K) (t : Nat) : K :=
+  if isFftshift then fftshiftv N' x t else ifftshiftv N' x t
+
+/-- scale of one axis: `norm='ortho'` ↦ `√(1/N)`; otherwise `1` (forward) or `1/N` (inverse) -/
+def normG (fl : RouteFlags) (nrm : R → K) (N' : Nat) : K :=
+  if fl.ortho then nrm (Num.ofInt 1 / Num.ofInt (N' : Int))
+  else if fl.inverse then Num.ofInt 1 / Num.ofInt (N' : Int) else Num.ofInt 1
+
+/-- the padded FFT route with its flags as parameters; `e` is always the FORWARD kernel `exp(−2πi·)` -/
+def fftRoute2G (fl : RouteFlags) (e : R → K) (nrm : R → K) (shp out : Nat × Nat) (off : Int × Int) (f : Array (Array K)) :
+    Array (Array K) :=
+  let ker : R → K := if fl.inverse then (fun t => e (-t)) else e
+  let xp := tab2 out.1 out.2 (fun u v => padv shp.1 off.1 (fun j => padv shp.2 off.2 (rd2 f j) v) u)
+  let y := tab2 out.1 out.2 (fun u v => shiftG (!fl.innerIsIfftshift) out.1 (fun u' => shiftG (!fl.innerIsIfftshift) out.2 (rd2 xp u') v) u)
+  let rows := tab2 out.1 out.2 (fun p q => normG fl nrm out.2 * dftL ker out.2 (rd2 y p) q)
+  let Y := tab2 out.1 out.2 (fun p q => normG fl nrm out.1 * dftL ker out.1 (fun u => rd2 rows u q) p)
+  tab2 out.1 out.2 (fun k l => shiftG fl.outerIsFftshift out.1 (fun k' => shiftG fl.outerIsFftshift out.2 (rd2 Y k') l) k)
+
+/-- reference lists for the cache model (what the repaired source keys on / reads while building) -/
+def mdftKeyFieldsRef : List String := ["Q", "samples_in", "samples_out", "shift", "fwd", "config.precision"]
+def cztKeyFieldsRef : List String :=
+  ["m", "n", "M", "N", "K", "L", "alphay", "alphax", "shift[0]", "shift[1]", "dtype", "True"]
+
 /-! ## executor caches as a state machine
 
 A call reads a *state* (its arguments and the global configuration) — an assignment of values to named
